@@ -18,6 +18,7 @@ stated about what the source says now:
                          _handle_mouse returns a counted reference which on_term_mouse drops
   mouseKeepsRoot         on_term_mouse holds a reference on the root window from before its first dispatch to after its last
   lastPressInit          tickit_window_new_root2 initialises mouse_last_button/line/col
+  penCopyKeepsSrc        tickit_pen_copy holds a reference on src from before freeze(dst) to after thaw(dst)
 """
 import re
 
@@ -105,6 +106,16 @@ def run(ctx):
     ilast = tmouse.rfind("_handle_mouse(")
     flags["mouseKeepsRoot"] = bool(0 <= iref < ifirst and ilast < iunref)
     flags["lastPressInit"] = all(re.search(r"root->mouse_last_%s\s*=" % f, newroot) for f in ("button", "line", "col"))
+
+    pen = strip(src("src/pen.c"))
+    pcopy = body_of(pen, "void tickit_pen_copy") or ""
+    if not pcopy:
+        info["untranslatable"].append("life:function:tickit_pen_copy")
+    iref = pcopy.find("tickit_pen_ref(")
+    ifrz = pcopy.find("freeze(dst)")
+    ithaw = pcopy.rfind("thaw(dst)")
+    iunref = pcopy.rfind("tickit_pen_unref(")
+    flags["penCopyKeepsSrc"] = bool(0 <= iref < ifrz and 0 <= ithaw < iunref and "src" in pcopy[iref:iref + 60])
 
     body = "namespace Tickit.Gen.Life\n"
     for k, v in flags.items():
